@@ -1,7 +1,27 @@
-(* Eval.v — dispatch of observation lines to the per-property evaluators. *)
-From Verif Require Import Base Sexp Eval17.
+(* Eval.v — dispatch of observation lines to the per-property evaluators.
+   One evaluator per property, in EvalNN.v; this file is only the table. *)
+From Verif Require Import Base Sexp Eval01 Eval02 Eval03 Eval04 Eval05 Eval06 Eval07 Eval08 Eval09 Eval10 Eval11 Eval12 Eval13 Eval14 Eval15 Eval16 Eval17 Eval18 Eval19 Eval20.
 Open Scope string_scope.
 
 Definition eval_obs (prop : string) (e : sexp) : verdict :=
-  if String.eqb prop "C17" then eval17 e
-  else bad_line.
+  if String.eqb prop "C01" then eval01 e else
+  if String.eqb prop "C02" then eval02 e else
+  if String.eqb prop "C03" then eval03 e else
+  if String.eqb prop "C04" then eval04 e else
+  if String.eqb prop "C05" then eval05 e else
+  if String.eqb prop "C06" then eval06 e else
+  if String.eqb prop "C07" then eval07 e else
+  if String.eqb prop "C08" then eval08 e else
+  if String.eqb prop "C09" then eval09 e else
+  if String.eqb prop "C10" then eval10 e else
+  if String.eqb prop "C11" then eval11 e else
+  if String.eqb prop "C12" then eval12 e else
+  if String.eqb prop "C13" then eval13 e else
+  if String.eqb prop "C14" then eval14 e else
+  if String.eqb prop "C15" then eval15 e else
+  if String.eqb prop "C16" then eval16 e else
+  if String.eqb prop "C17" then eval17 e else
+  if String.eqb prop "C18" then eval18 e else
+  if String.eqb prop "C19" then eval19 e else
+  if String.eqb prop "C20" then eval20 e else
+  bad_line.
